@@ -623,6 +623,17 @@ POISON_TEXT = ("EventType D0 K- pi+ pi+ pi-\n"
                "D0{Zork(999)0{K-,pi+},rho(770)0{pi+,pi-}} 0 1 0 0 2 0\n")
 
 
+# ... and one that the options grammar itself refuses half-way down (a brace is missing), after complete lines, a parameter and a constant
+SYNTAX_POISON_TEXT = ("EventType D0 K- pi+ pi+ pi-\n"
+                      "FastCoherentSum::UseCartesian 1\n"
+                      "D0[D]{K*(892)bar0{K-,pi+},rho(770)0{pi+,pi-}} 0 0.5 0.1 0 0.3 0.1\n"
+                      "D0{a(1)(1260)+{rho(770)0{pi+,pi-},pi+},K-} 2 1 0 2 0 0\n"
+                      "a(1)(1260)+_mass 2 1.23 0\n"
+                      "rho(770)0::Spline::N 4\n"
+                      "D0{K(1)(1270)bar-{K*(892)bar0{K-,pi+},pi-,pi+} 0 1 0 0 2 0\n")
+POISON_TEXTS = [POISON_TEXT, SYNTAX_POISON_TEXT]
+
+
 # the charge-conjugate spelling of every pool name (AmpGen style: 'bar' marks the antiparticle of a neutral or strange/charmed state)
 MIRROR = {"D0": "Dbar0", "K-": "K+", "K+": "K-", "pi+": "pi-", "pi-": "pi+", "K*(892)bar0": "K*(892)0", "K*(892)0": "K*(892)bar0",
           "K(1)(1270)bar-": "K(1)(1270)+", "K(1)(1270)+": "K(1)(1270)bar-", "K(1)(1400)bar-": "K(1)(1400)+", "K(1460)bar-": "K(1460)+",
